@@ -58,12 +58,12 @@ def _signed_message(fn: loader.Func) -> List[S.Seg]:
     return S.segments(fn, msg) if msg is not None else []
 
 
-def _signer_encoders(fn: loader.Func) -> Dict[str, Tuple[str, ast.AST]]:
+def _signer_encoders(fn: loader.Func) -> Dict[str, Tuple[str, ast.AST, str]]:
     """parameter name -> (encoder function name, node) for every ``enc(param)`` that is part of the signed message."""
     out: Dict[str, Tuple[str, ast.AST]] = {}
     for seg in _signed_message(fn):
         if seg.kind == "enc" and seg.arg in fn.params:
-            out[seg.arg] = (seg.text, seg.node)
+            out[seg.arg] = (seg.text, seg.node, seg.xform)
     return out
 
 
@@ -80,7 +80,7 @@ def _query_transport(ctx: Ctx, fn: loader.Func, call: ast.Call) -> Tuple[str, Op
         inner = S.segments(fn, x.args[0])
         encs = [y for y in inner if y.kind == "enc"]
         if encs:
-            return (encs[0].text, encs[0].arg, f"yarl.URL(<... {encs[0].text}({encs[0].arg})>, encoded=True)")
+            return (encs[0].text, encs[0].arg, f"yarl.URL(<... {encs[0].text}({encs[0].xform.replace('$', str(encs[0].arg))[:60]})>, encoded=True)", encs[0].xform)
         return ("identity", None, ast.unparse(x)[:60])
     if any(y.kind == "enc" for y in segs):
         return ("yarl-requote", None, "query concatenated into a plain str URL (aiohttp re-quotes it)")
@@ -132,16 +132,19 @@ def rule_encoders(ctx: Ctx) -> None:
     bt = _body_transport(mk, call)
     ctx.sample({"rule": "C16.1", "channel": "binance", "signed": {k: v[0] for k, v in enc.items()}, "sent_query": qt[::2], "sent_body": bt[::2]})
     from .. import norm as N
-    ctx.check(qt[0].split("(")[0] == enc["qs_params"][0].split("(")[0] and q_var is not None and qt[1] in N.aliases(mk, q_var), "C16.1",
+    q_xf = qt[3] if len(qt) > 3 else "$"
+    ctx.check(qt[0].split("(")[0] == enc["qs_params"][0].split("(")[0] and q_var is not None and qt[1] in N.aliases(mk, q_var)
+              and q_xf == enc["qs_params"][2], "C16.1",
               "binance query string: encoder that signs == encoder that sends, same variable", mk, call,
               f"signed with {enc['qs_params'][0]}({q_var}), sent as {qt[2]}",
               f"the query string is signed with {enc['qs_params'][0]}({q_var}) but sent as {qt[2]} [{qt[0]}]: the two encoders "
               "disagree on URL-special characters (':' '/' '@' ',' ...), so e.g. origClientOrderId='a:b/c' is signed as "
               "'a%3Ab%2Fc' and transmitted as 'a:b/c' and the exchange rejects the signature", key_text="binance query encoders")
-    ctx.check(bt[0] == enc["data"][0].split("(")[0] and d_var is not None and bt[1] in N.aliases(mk, d_var), "C16.1",
+    ctx.check(bt[0] == enc["data"][0].split("(")[0] and d_var is not None and bt[1] in N.aliases(mk, d_var) and enc["data"][2] == "$", "C16.1",
               "binance body: encoder that signs == encoder that sends, same variable", mk, call,
               f"signed with {enc['data'][0]}({d_var}), sent as {bt[2]}",
-              f"the body is signed with {enc['data'][0]}({d_var}) but sent as {bt[2]} [{bt[0]}]", key_text="binance body encoders")
+              f"the body is signed with {enc['data'][0]}({enc['data'][2].replace('$', str(d_var))[:80]}) but sent as {bt[2]} [{bt[0]} of the "
+              "untransformed mapping]: the bytes signed differ from the bytes sent whenever the transformation changes a value", key_text="binance body encoders")
     # order in the signed text: query first, then body
     order = [x.arg for x in _signed_message(sig)]
     ctx.check(order == ["qs_params", "data"], "C16.1",
